@@ -38,7 +38,7 @@ C["C01"] = dict(level="other",
  stubs=["zzMsgs (socket.Messages)", "funcs model", "zzBytesCodec (body codec)", "hslam/log (empty bodies)"],
  bounds={"calls per connection": "quick 2, thorough 3", "payload": "1 symbolic byte per call (client), 1 or 10 bytes (server)", "initial sequence number": "quick 0; thorough: any 64-bit value (symbolic)", "framing": "2 frames, payloads 0..2 and 1..2 bytes, every chunking of the stream", "schedules": SCHED, "pool policy": "sync.Pool LIFO reuse (maximal aliasing)"},
  outside=["TCP itself, the auto-batching writer of hslam/writer", "more outstanding calls than the bound", "Transport/Client wrappers (address routing is C14/C16)", "payloads larger than the stated sizes (header codecs at all boundaries: C07)"],
- runs={"quick": [run("CLI", labels=CLI_C01), run("CLIb", labels=CLI_C01), run("SRV", labels=SRV_C01), run("SRV", params={"srv.nocopy": 1, "srv.N": 3, "srv.kinds": 2, "srv.arglens": 1, "srv.concrete": 1, "srv.bufsizes": 2}, labels=SRV_C01), run("SRVn", labels=SRV_C01 + ["one-response-per-request"]), run("FRAM")],
+ runs={"quick": [run("CLI", labels=CLI_C01), run("CLIb", labels=CLI_C01), run("SRV", labels=SRV_C01), run("SRV", params={"srv.nocopy": 1, "srv.N": 3, "srv.kinds": 2, "srv.arglens": 1, "srv.concrete": 1, "srv.bufsizes": 2}, labels=SRV_C01), run("SRVn", labels=SRV_C01 + ["one-response-per-request"]), run("STR2", labels=["unary-call-unaffected-by-streams", "messages-in-order-unmodified", "all-messages-delivered"]), run("FRAM")],
        "thorough": [run("SRVn", params={"srvn.full": 1}, labels=SRV_C01 + ["one-response-per-request"], budget=1500), run("CLI", params={"cli.K": 3}, labels=CLI_C01, budget=900), run("CLI", params={"cli.symseq": 1}, labels=CLI_C01, budget=900), run("SRV", params={"srv.N": 3, "srv.kinds": 3, "srv.arglens": 1, "srv.bufsizes": 1}, labels=SRV_C01, budget=1200), run("SRV", params={"srv.nocopy": 1, "srv.N": 3, "srv.kinds": 3, "srv.arglens": 1, "srv.bufsizes": 2}, labels=SRV_C01, budget=1500), run("CLIb", params={"clib.K": 4}, labels=CLI_C01, budget=1200), run("FRAM")]})
 
 C["C02"] = dict(level="other",
@@ -167,7 +167,7 @@ C["C14"] = dict(level="other",
  stubs=["zzMsgs (auto-answering server)", "Dial stub", "clock"],
  bounds={"operations": "3 (thorough 4)", "recovery calls": "3 (thorough 4)", "ticks": "2"},
  outside=["Transport.Go/RoundTrip on a connection that dies after the call was issued (asynchronous outcome bookkeeping)", "concurrent callers"],
- runs={"quick": [run("TR", labels=TR_C14), run("TRrec"), run("TRaddr"), run("TRvia")], "thorough": [run("TR", params={"tr.S": 4, "tr.ticks": 2}, labels=TR_C14, budget=2400), run("TRrec", params={"tr.R": 4, "tr.ticks": 3}, budget=900), run("TRaddr", params={"tr.ticks": 3}), run("TRvia", params={"tr.ticks": 2})]})
+ runs={"quick": [run("TR", labels=TR_C14), run("TRrec"), run("TRaddr"), run("TRvia"), run("TRdown")], "thorough": [run("TR", params={"tr.S": 4, "tr.ticks": 2}, labels=TR_C14, budget=2400), run("TRrec", params={"tr.R": 4, "tr.ticks": 3}, budget=900), run("TRaddr", params={"tr.ticks": 3}), run("TRvia", params={"tr.ticks": 2}), run("TRdown", params={"tr.ticks": 2})]})
 
 C["C15"] = dict(level="other",
  explanation="A holder goroutine makes a long call through the real Transport (the stub server answers only at the end) while housekeeping ticks (symbolic clock: the connection may look arbitrarily old) and CloseIdleConnections run; the connection carrying the unanswered request must not be closed and the call must succeed; Transport.Close closes every connection. quick: macro-step interleavings; thorough: additionally Lock-granularity with 2 preemptions (the check-then-close window).",
@@ -195,8 +195,8 @@ C["C17"] = dict(level="other",
  stubs=["clock", "math/rand.Intn = arbitrary value in range"],
  bounds={"targets n": "2..4 (thorough 2..6)", "latencies": "arbitrary int64", "alpha": "0.8, 0.5, 0, 1, 0.25"},
  outside=["n > 6", "statistical properties of Random", "the statement 'estimate lies between old and new' (solver cannot decide it: differential form used)"],
- runs={"quick": [run("C17rr"), run("C17rand"), run("C17heap"), run("C17lt"), run("C17ewma")],
-       "thorough": [run("C17rr", params={"c17.maxn": 6}), run("C17rand", params={"c17.maxn": 6}), run("C17heap", params={"c17.maxn": 6}, budget=900), run("C17lt", params={"c17.maxn": 5}, budget=900), run("C17ewma")]})
+ runs={"quick": [run("C17rr"), run("C17rand"), run("C17heap"), run("C17lt"), run("C17ewma"), run("C17d")],
+       "thorough": [run("C17rr", params={"c17.maxn": 6}), run("C17rand", params={"c17.maxn": 6}), run("C17heap", params={"c17.maxn": 6}, budget=900), run("C17lt", params={"c17.maxn": 5}, budget=900), run("C17ewma"), run("C17d", params={"clt.ticks": 4})]})
 
 C["C18"] = dict(level="other",
  explanation="Callers enter the real Client while no target is live (director/wait/checkClosed); then the target becomes healthy, the Client is closed, Fallback is requested, or nothing happens; detector ticks, DialTimeout and Fallback timers fire at every quiescent point in every order. Terminal states: no caller is stranded; error kinds per release cause (nil or ErrTimeout when woken, ErrShutdown or ErrTimeout when closed, ErrTimeout when nothing is live); after Close calls fail at once. Plus the CLT histories (Close, call after close).",
@@ -205,8 +205,8 @@ C["C18"] = dict(level="other",
  stubs=["zzRT", "timers"],
  bounds={"concurrent callers": "quick 1, thorough 2", "ticks": "2"},
  outside=["wall-clock 'within a bounded detection time'", "more waiters"],
- runs={"quick": [run("C18w", params={"c18.N": 1}), run("C18f"), run("C18u"), run("C18c"), run("C18c", P=1, gran=1), run("CLT", params={"clt.S": 2}, labels=["call-after-close-is-shutdown", "second-close-nil", "all-goroutines-exit-after-close", "unrouted-call-fails-with-timeout"])],
-       "thorough": [run("C18w", params={"c18.N": 2}, budget=1500), run("C18f", params={"c18.ticks": 4}), run("C18u"), run("C18c", P=2, gran=1, params={"c18.N": 2}, budget=900), run("C18w", P=1, gran=1, params={"c18.N": 1, "c18.ticks": 1}, budget=1500), run("CLT", params={"clt.S": 3}, labels=["call-after-close-is-shutdown", "second-close-nil", "all-goroutines-exit-after-close", "unrouted-call-fails-with-timeout"], budget=1500)]})
+ runs={"quick": [run("C18w", params={"c18.N": 1}), run("C18f"), run("C18fb"), run("C18u"), run("C18c"), run("C18c", P=1, gran=1), run("CLT", params={"clt.S": 2}, labels=["call-after-close-is-shutdown", "second-close-nil", "all-goroutines-exit-after-close", "unrouted-call-fails-with-timeout"])],
+       "thorough": [run("C18w", params={"c18.N": 2}, budget=1500), run("C18f", params={"c18.ticks": 4}), run("C18fb"), run("C18fb", P=1, gran=1), run("C18u"), run("C18c", P=2, gran=1, params={"c18.N": 2}, budget=900), run("C18w", P=1, gran=1, params={"c18.N": 1, "c18.ticks": 1}, budget=1500), run("CLT", params={"clt.S": 3}, labels=["call-after-close-is-shutdown", "second-close-nil", "all-goroutines-exit-after-close", "unrouted-call-fails-with-timeout"], budget=1500)]})
 
 C["C19"] = dict(level="other",
  explanation="One CallWithContext (harness-side context.Context with a buffer of symbolic stale contents and capacity smaller/equal/larger than the reply) and a sibling call on a real Conn; a correct server answers, the context is cancelled, or the call is never answered, in five scripts and every interleaving; a later call follows. CallWithContext returns (never stuck), with the context error when never answered, the reply when never cancelled, one of the two otherwise; the sibling and the later call get their own replies (a late response cannot land on a recycled call: LIFO pool reuse); buffer rules as in C11.",
@@ -215,7 +215,7 @@ C["C19"] = dict(level="other",
  stubs=["zzMsgs", "zzBytesCodec", "harness context.Context"],
  bounds={"reply length": "2 or 4 bytes", "buffer capacity": "none, 1, len-1, len, len+2", "schedules": SCHED},
  outside=["several abandoned calls", "Client wrapper"],
- runs={"quick": [run("C19"), run("TRctx")], "thorough": [run("C19"), run("TRctx"), run("TRctx", P=1, gran=1), run("C19", P=1, gran=1, budget=1500)]})
+ runs={"quick": [run("C19"), run("TRctx"), run("CLIb", labels=["context-buffer-untouched-by-later-calls", "reply-of-own-args", "no-error"])], "thorough": [run("C19"), run("TRctx"), run("TRctx", P=1, gran=1), run("C19", P=1, gran=1, budget=1500)]})
 
 C["C20"] = dict(level="other",
  explanation="Terminal-state assertions after Close: Conn (C03 harness: every goroutine of the connection exits after the cut, the socket is closed, repeated Close reports ErrShutdown), Transport (TR harness: Close closes every pooled connection, the ticker goroutine exits), Client (CLT harness: detector goroutine exits, Transport closed, second Close nil), non-poll Server through the real Server.listen with a stub listener (two accepted connections, Close and peer disconnects in either order: Listen returns, accepted connections are closed, every goroutine exits, repeated Close returns nil).",
@@ -224,7 +224,7 @@ C["C20"] = dict(level="other",
  stubs=["zzMsgs", "stub listener/socket", "zzRT"],
  bounds={"histories": "as in the C03, TR, CLT harnesses; server: 2 connections, 1 request"},
  outside=["OS sockets", "poll servers (excluded by the property)"],
- runs={"quick": [run("C03", labels=["every-goroutine-exits", "socket-closed", "second-close-reports-ErrShutdown", "repeated-close-reports-ErrShutdown"]), run("C20srv"), run("C20cl"), run("TR", params={"tr.S": 2}, labels=["close-closes-every-connection", "all-goroutines-exit-after-close"]), run("CLT", params={"clt.S": 2}, labels=["all-goroutines-exit-after-close", "transport-closed", "second-close-nil"])],
+ runs={"quick": [run("C03", labels=["every-goroutine-exits", "socket-closed", "second-close-reports-ErrShutdown", "repeated-close-reports-ErrShutdown"]), run("C20srv"), run("C20cl"), run("C02", labels=["socket-closed", "no-goroutine-stuck"]), run("TR", params={"tr.S": 2}, labels=["close-closes-every-connection", "all-goroutines-exit-after-close"]), run("CLT", params={"clt.S": 2}, labels=["all-goroutines-exit-after-close", "transport-closed", "second-close-nil"])],
        "thorough": [run("C03", params={"c03.K": 3, "c03.pings": 0}, labels=["every-goroutine-exits", "socket-closed", "second-close-reports-ErrShutdown", "repeated-close-reports-ErrShutdown"], budget=1800), run("C20srv"), run("C20cl"), run("C20cl", P=1, gran=1), run("TR", labels=["close-closes-every-connection", "all-goroutines-exit-after-close"]), run("CLT", params={"clt.S": 3}, labels=["all-goroutines-exit-after-close", "transport-closed", "second-close-nil"], budget=1500)]})
 
 json.dump(C, open('/verif/checks.json', 'w'), indent=1)
